@@ -618,6 +618,41 @@ func (env *Env) lvalues(e Expr) []lvalue {
 		return env.fieldLvalues(stT, v.S, x.Name)
 	case *ECall:
 		if id, ok := x.Fun.(*EIdent); ok && id.Name == "elems" && len(x.Args) == 1 {
+			// elems(TypeName): the contents of EVERY map / slice of that type (whole component)
+			if te, err := parseTypeString(x.Args[0].String()); err == nil {
+				isVar := false
+				if aid, isId := x.Args[0].(*EIdent); isId {
+					_, isVar = env.lookupIdent(aid.Name)
+				}
+				if sel, isSel := x.Args[0].(*ESel); isSel {
+					if bid, isId := sel.X.(*EIdent); isId {
+						_, isVar = env.lookupIdent(bid.Name)
+					} else {
+						isVar = true
+					}
+				}
+				if !isVar {
+					var gt GType
+					okT := true
+					func() {
+						defer func() {
+							if recover() != nil {
+								okT = false
+							}
+						}()
+						gt = env.resolveType(te)
+					}()
+					if okT && gt.T != nil {
+						switch t := gt.T.Underlying().(type) {
+						case *types.Slice:
+							return []lvalue{{comp: g.arrComp(t.Elem())}}
+						case *types.Map:
+							h, vv, l := g.mapComps(t)
+							return []lvalue{{comp: h}, {comp: vv}, {comp: l}}
+						}
+					}
+				}
+			}
 			v := env.value(env.tr(x.Args[0]))
 			switch t := v.G.T.Underlying().(type) {
 			case *types.Slice:
